@@ -261,7 +261,7 @@ fn finding_key(rule: &Rule, parent_kind: &str) -> Option<&'static str> {
 
 fn check_one(report: &mut Report, pool: &Pool, scratch: &Scratch, schema_text: &str, ext: &str, document: &str, rule: &str, parent_kind: &str, at: &str, tape: &[u8]) {
     let sp = scratch.file(schema_text, ext);
-    let out = pool.run(&[Job { schema_path: sp, query: QuerySrc::Text(document.to_string()), opts: Opts::default() }]);
+    let out = pool.run(&[Job { schema_path: sp, query: QuerySrc::Text(document.to_string()), opts: Opts::default(), cwd: None }]);
     judge(report, &out[0], schema_text, ext, document, rule, parent_kind, at, tape);
 }
 
@@ -313,7 +313,7 @@ pub fn run(report: &mut Report, replay: Option<&Value>) {
         let mut t = Tape::new(tp);
         let Some(b) = build_base(&mut t, &cfg, &mut stats) else { continue };
         let sp = scratch.file(&b.case.schema_text, &b.case.schema_ext);
-        base_jobs.push(Job { schema_path: sp, query: QuerySrc::Text(b.case.document.clone()), opts: Opts::default() });
+        base_jobs.push(Job { schema_path: sp, query: QuerySrc::Text(b.case.document.clone()), opts: Opts::default(), cwd: None });
         bases.push((tp.clone(), b));
     }
     let base_outs = pool.run(&base_jobs);
@@ -349,7 +349,7 @@ pub fn run(report: &mut Report, replay: Option<&Value>) {
                 report.nontrivial.insert(base_hash ^ fnv_str(&[e.rule.id(), &e.at]));
             }
             let sp = scratch.file(&b.case.schema_text, &b.case.schema_ext);
-            jobs.push(Job { schema_path: sp, query: QuerySrc::Text(text.clone()), opts: Opts::default() });
+            jobs.push(Job { schema_path: sp, query: QuerySrc::Text(text.clone()), opts: Opts::default(), cwd: None });
             metas.push((tp.clone(), b.case.schema_text.clone(), b.case.schema_ext.clone(), text, e.rule.id(), e.parent_kind, e.at));
         }
     }
